@@ -14,7 +14,7 @@ PARTIAL = ["only the field kernels (position and identifier numbers) carry theor
            "multi-bus clusters (KCD/ARXML with 2..3 buses) are not generated yet",
            "ARXML 3.x is not generated (4.x only)"]
 ASSUMPTIONS = ["SYM: the multiplexer is renamed <frame>_MUX by design and static signals of multiplexed messages are repeated per group",
-               "XLS: identifier numbers unique across standard/extended", "ARXML: matrix-unique signal names, no ECU both sends and receives a frame"]
+               "XLS: identifier numbers unique across standard/extended, value-table keys below 2^53 (cells hold doubles)", "ARXML: matrix-unique signal names, no ECU both sends and receives a frame"]
 TRUSTED = ["lxml, xlrd/xlwt, json used by the writers/readers", "regular-expression mini-parsers of the harness"]
 CORRESPONDENCE = "stored position numbers and re-read layout == CanVerif.emitPos / parsePos (Model/Fields.lean)"
 
